@@ -20,6 +20,11 @@
 (*          ready only to the selected input, switching only between       *)
 (*          bursts and to the highest-priority waiting input, idle flag.   *)
 (* Index 1 is the stream added first (highest priority).                   *)
+(* Configuration (fixed by Init): N inputs; Comb = TRUE describes the      *)
+(* StreamMultiplexer ("no scheduling, assumes only one stream communicates *)
+(* at once"): the offering input is connected combinationally, Env then    *)
+(* offers at most one valid input per cycle.  Input `rst` = synchronous    *)
+(* reset of the arbiter's clock domain: the selection returns to input 1.  *)
 (***************************************************************************)
 EXTENDS Naturals, Sequences, FiniteSets
 
@@ -30,6 +35,7 @@ CONSTANTS Sizes,      \* the numbers of input streams explored (exhaustive model
                       \* per-cycle counterpart ExactlyOncePerCycle is what is evaluated there)
 
 VARIABLES N,          \* configuration: number of input streams (fixed by Init)
+          Comb,       \* configuration: TRUE = combinational multiplexer without scheduling (fixed by Init)
           sel,        \* Ref: input selected for the coming cycle
           cur,        \* input that was selected during the cycle recorded in in/out
           in,         \* Env: inputs of the last cycle   [valid, data : 1..N -> _, ready]
@@ -38,71 +44,78 @@ VARIABLES N,          \* configuration: number of input streams (fixed by Init)
           dlv,        \* ghost: <<input, payload>> of every beat delivered at the output
           served      \* ghost: inputs that are valid without interruption since a beat of theirs was delivered
 
-vars == <<N, sel, cur, in, out, acc, dlv, served>>
+vars == <<N, Comb, sel, cur, in, out, acc, dlv, served>>
 
 Idx == 1..N
 Bool == {TRUE, FALSE}
 
 DataOf(i) == IF N >= TagFrom THEN {i} ELSE Data
 DataVectors == IF N >= TagFrom THEN {[k \in Idx |-> k]} ELSE [Idx -> Data]
-Inputs == [valid : [Idx -> Bool], data : DataVectors, ready : Bool]
+Inputs == [valid : [Idx -> Bool], data : DataVectors, ready : Bool, rst : {FALSE}]
 
 ValidSet(i) == {k \in Idx : i.valid[k]}
 Lowest(S) == CHOOSE k \in S : \A j \in S : k <= j
 
 -----------------------------------------------------------------------------
-(* Ref: outputs of a cycle as a function of the selection and the cycle's inputs *)
-OutValid(s, i) == i.valid[s]
-OutData(s, i)  == i.data[s]
+(* Ref: outputs of a cycle as a function of the selection and the cycle's inputs.  Eff = the input *)
+(* connected to the output in this cycle (0 = none: multiplexer with nothing offered).           *)
+Eff(i) == IF Comb THEN (IF ValidSet(i) = {} THEN 0 ELSE Lowest(ValidSet(i))) ELSE sel
+OutValid(s, i) == s # 0 /\ i.valid[s]
+OutData(s, i)  == IF s = 0 THEN 0 ELSE i.data[s]
 ReadyTo(s, i)  == [k \in Idx |-> (k = s) /\ i.ready]
 IdleFlag(i)    == ValidSet(i) = {}
+EnvOK(i)       == Comb => Cardinality(ValidSet(i)) <= 1      \* the multiplexer's documented assumption
 
 (* The selection moves only when the selected input is not offering data, and then to *)
-(* the highest-priority input that is waiting; with nobody waiting it stays.           *)
-NextSel(s, i) == IF i.valid[s] \/ ValidSet(i) = {} THEN s ELSE Lowest(ValidSet(i))
+(* the highest-priority input that is waiting; with nobody waiting it stays.  A reset  *)
+(* of the clock domain returns it to input 1.                                          *)
+NextSel(s, i) == IF i.rst THEN 1
+                 ELSE IF Comb \/ i.valid[s] \/ ValidSet(i) = {} THEN s ELSE Lowest(ValidSet(i))
 
 Accepted(i, o) == {k \in Idx : i.valid[k] /\ o.ready[k]}
 
-InitWith(n) ==
-        /\ N = n
+InitWith(n, comb) ==
+        /\ N = n /\ Comb = comb
         /\ sel = 1 /\ cur = 1
-        /\ in = [valid |-> [k \in Idx |-> FALSE], data |-> [k \in Idx |-> Lowest(DataOf(k))], ready |-> FALSE]
-        /\ out = [valid |-> FALSE, data |-> Lowest(DataOf(1)), ready |-> [k \in Idx |-> FALSE], idle |-> TRUE]
+        /\ in = [valid |-> [k \in Idx |-> FALSE], data |-> [k \in Idx |-> Lowest(DataOf(k))], ready |-> FALSE, rst |-> FALSE]
+        /\ out = [valid |-> FALSE, data |-> 0, ready |-> [k \in Idx |-> FALSE], idle |-> TRUE]
         /\ acc = [k \in Idx |-> <<>>]
         /\ dlv = <<>>
         /\ served = {}
 
-Init == \E n \in Sizes : InitWith(n)
+Init == \E n \in Sizes, c \in Bool : InitWith(n, c)
 
 Step(i) ==
-  LET o == [valid |-> OutValid(sel, i), data |-> OutData(sel, i), ready |-> ReadyTo(sel, i),
+  LET e == Eff(i)
+      o == [valid |-> OutValid(e, i), data |-> OutData(e, i), ready |-> ReadyTo(e, i),
             idle |-> IdleFlag(i)]
       a == Accepted(i, o)
-  IN /\ N' = N
+  IN /\ UNCHANGED <<N, Comb>>
      /\ in' = i
      /\ out' = o
-     /\ cur' = sel
+     /\ cur' = e
      /\ sel' = NextSel(sel, i)
      /\ acc' = IF KeepLogs THEN [k \in Idx |-> IF k \in a THEN Append(acc[k], i.data[k]) ELSE acc[k]] ELSE acc
-     /\ dlv' = IF KeepLogs /\ o.valid /\ i.ready THEN Append(dlv, <<sel, o.data>>) ELSE dlv
-     /\ served' = {k \in Idx : i.valid[k] /\ (k \in a \/ k \in served)}
+     /\ dlv' = IF KeepLogs /\ o.valid /\ i.ready THEN Append(dlv, <<e, o.data>>) ELSE dlv
+     /\ served' = IF i.rst THEN {} ELSE {k \in Idx : i.valid[k] /\ (k \in a \/ k \in served)}   \* a reset ends every burst
 
 (* The cycles are named by what happens in them (so that coverage shows each kind is reached). *)
-IdleCycle   == \E i \in Inputs : ValidSet(i) = {} /\ Step(i)                       \* nobody offers data
-BeatCycle   == \E i \in Inputs : i.valid[sel] /\ i.ready /\ Step(i)                \* a word is forwarded
-StallCycle  == \E i \in Inputs : i.valid[sel] /\ ~i.ready /\ Step(i)               \* back-pressure on the selected input
-SwitchCycle == \E i \in Inputs : ~i.valid[sel] /\ ValidSet(i) # {} /\ Step(i)      \* selected idle, someone waits
+IdleCycle   == \E i \in Inputs : ValidSet(i) = {} /\ Step(i)                                  \* nobody offers data
+BeatCycle   == \E i \in Inputs : EnvOK(i) /\ OutValid(Eff(i), i) /\ i.ready /\ Step(i)          \* a word is forwarded
+StallCycle  == \E i \in Inputs : EnvOK(i) /\ OutValid(Eff(i), i) /\ ~i.ready /\ Step(i)         \* back-pressure
+SwitchCycle == \E i \in Inputs : ~Comb /\ ~i.valid[sel] /\ ValidSet(i) # {} /\ Step(i)          \* selected idle, someone waits
+ResetCycle  == \E i \in Inputs : EnvOK(i) /\ i.ready /\ Step([i EXCEPT !.rst = TRUE])            \* clock-domain reset
 
-Next == IdleCycle \/ BeatCycle \/ StallCycle \/ SwitchCycle
+Next == IdleCycle \/ BeatCycle \/ StallCycle \/ SwitchCycle \/ ResetCycle
 
 Spec == Init /\ [][Next]_vars
 
 -----------------------------------------------------------------------------
 (* Prop *)
-TypeOK == sel \in Idx /\ cur \in Idx /\ served \subseteq Idx
+TypeOK == sel \in Idx /\ cur \in 0..N /\ served \subseteq Idx
 
 \* words are forwarded only from the selected input, and ready reaches only that input
-ForwardsSelectedOnly == /\ out.valid = in.valid[cur]
+ForwardsSelectedOnly == /\ out.valid = (cur # 0 /\ in.valid[cur])
                         /\ (out.valid => out.data = in.data[cur])
 ReadyOnlyToSelected == \A k \in Idx : out.ready[k] => (k = cur /\ in.ready)
 
@@ -125,11 +138,12 @@ BurstsNotInterleaved ==
 
 \* the selection changes only between bursts, and then to the highest-priority waiting input
 SwitchOnlyWhenSelectedIdle ==
-    [][sel' # sel => (~in'.valid[sel] /\ in'.valid[sel'] /\ \A j \in Idx : in'.valid[j] => sel' <= j)]_vars
+    [][sel' # sel => (in'.rst \/ (~in'.valid[sel] /\ in'.valid[sel'] /\ \A j \in Idx : in'.valid[j] => sel' <= j))]_vars
 \* a waiting input is not passed over once the selected one goes idle
 NoStarvationByIdleSelection ==
-    [][(~in'.valid[sel] /\ ValidSet(in') # {}) => sel' = Lowest(ValidSet(in'))]_vars
+    [][(~Comb /\ ~in'.rst /\ ~in'.valid[sel] /\ ValidSet(in') # {}) => sel' = Lowest(ValidSet(in'))]_vars
 
 IdleExactlyWhenNothingOffered == out.idle <=> (\A k \in Idx : ~in.valid[k])
+ResetReturnsToFirst == [][in'.rst => sel' = 1]_vars
 
 =============================================================================
